@@ -44,8 +44,14 @@ def values_at(axis, level, n):
         return [['13C'], ['15N'], ['13C', '15N'], ['18O'], ['D'], ['18O', '13C']]
     if axis == 'iv':
         mls = [[['Oxidation', 1]], [['1.5', 2]], [['Formula:C2H2O', 1]], None]
-        return [[[a, b, amb, ml]] for (a, b) in ((0, 2), (1, n)) for amb in (False, True) for ml in mls
-                if not (ml is None and not amb)]
+        out = [[[a, b, amb, ml]] for (a, b) in ((0, 2), (1, n)) for amb in (False, True) for ml in mls
+               if not (ml is None and not amb)]
+        if n >= 3:   # two intervals: without / with modifications in both orders, and two modified ones
+            out += [[[0, 1, True, None], [1, n, False, [['Oxidation', 1]]]],
+                    [[0, 1, False, [['1.5', 2]]], [2, n, True, None]],
+                    [[0, 1, False, [['Oxidation', 1]]], [1, n, True, [['Formula:C2H2O', 1], ['1.5', 1]]]],
+                    [[0, 1, False, None], [1, 2, True, None], [2, n, False, [['15.995', 1]]]]]
+        return out
     if axis == 'charge':
         return [[2, None, None], [-1, None, None], [2, None, '+2Na+'], [1, None, '+Na+']]
     raise KeyError(axis)
